@@ -233,7 +233,7 @@ def check_case(p, ctx):
             ctx.known("D27")
             ctx.exclude_known("D27")
             ctx.count("lsq-stuck-on-bound(D27)")
-        elif f_rep - f_ref > 1e-3 * f_ref + 1e-8 * bb:
+        elif f_rep - f_ref > 1e-3 * f_ref + 1e-7 * bb:
             return ctx.violation("restricted-not-optimal:lsq", p, observed=f_rep, expected=f_ref)
     else:
         ok, info = kkt_report(M, b, x_rep)
